@@ -252,6 +252,15 @@ def _failure(d, u):
             fn = l.fn
             break
     if label is None:
+        # the generated line itself may carry a `//: label props` comment (loop invariants)
+        for s in sorted(spans, key=lambda s: not s.get('is_primary')):
+            if s.get('file_name', '').endswith(u.name + '.rs') and 1 <= s['line_start'] <= len(u.lines):
+                m = re.search(r'//:\s*(\S+)(?:\s+(\S+))?\s*$', u.lines[s['line_start'] - 1].text)
+                if m:
+                    label = m.group(1)
+                    props = m.group(2).split(',') if m.group(2) else props
+                    break
+    if label is None:
         # a trait-level postcondition (`ensures r.nview() == Self::from_view(x)`): the obligation is
         # named by the labelled spec fn the template put at the head of the same impl block
         for s in spans:
